@@ -7,6 +7,7 @@ mod mk;
 mod runner;
 mod scen_adv;
 mod scen_dgram;
+mod scen_inject;
 mod scen_peer;
 mod scen_tcp;
 mod tap;
@@ -53,6 +54,10 @@ fn adv_any(t: &mut Tape, p: Props, thorough: bool, trace: bool) -> Outcome {
 }
 fn adv_154(t: &mut Tape, p: Props, thorough: bool, trace: bool) -> Outcome {
     scen_adv::run(t, p, thorough, trace, Some(codec::Medium::Ieee802154))
+}
+
+fn injector(t: &mut Tape, p: Props, thorough: bool, trace: bool) -> Outcome {
+    scen_inject::run(t, p, thorough, trace)
 }
 
 const REAL: &str = "smoltcp::iface::Interface, SocketSet, all socket types used by the scenario, wire, storage, iface::{neighbor,route,fragmentation} - built from /repo's working tree";
@@ -144,6 +149,17 @@ fn defs() -> &'static [CheckDef] {
                 scens: vec![Scen { name: "dgram-pair-exact", weight: 2, run: dgram_exact }, Scen { name: "dgram-pair-sloppy", weight: 2, run: dgram_sloppy }, Scen { name: "dgram-pair-frag", weight: 1, run: dgram_frag }],
                 rule: "one run = two real nodes with UDP and ICMP sockets (metadata rings 1-8 slots, payload rings 16-8192 bytes) exchanging tape-chosen datagrams over a faulty link with neighbour-resolution delays and device back-pressure; FIFO reference model per socket; non-trivial = a fault fired AND >= 3 datagrams delivered; distinct = event-log hash",
                 assumptions: vec!["raw sockets are not yet part of the workload", "exactly-once is judged at quiescence (no frame in flight, no deadline) after faults stopped"],
+                real: REAL,
+                stub: STUB,
+                quick_s: 20.0,
+                thorough_s: 600.0,
+            },
+            CheckDef {
+                id: "C11",
+                props: Props::of(&["C11"]),
+                scens: vec![Scen { name: "injector", weight: 1, run: injector }],
+                rule: "one run = a real node (tape-chosen medium, listeners/UDP/ICMP/DNS/raw sockets, joined groups) receiving valid packets drawn one at a time from protocol x L2 destination class x IP destination class x IP source class x port relation, each delivered alone through poll_ingress_single; verdict from an independent rule table; non-trivial = >= 5 packets of which >= 1 not addressed to the node; distinct = event-log hash",
+                assumptions: vec!["IPv6 hop-by-hop options whose type bits mandate a Parameter Problem even for multicast destinations (RFC 8200 s4.2) are not generated", "raw sockets see every IP packet by design and are outside the delivery rule"],
                 real: REAL,
                 stub: STUB,
                 quick_s: 20.0,
